@@ -554,8 +554,14 @@ pub fn check(engine: &dyn Engine, prop: &str, tier: Tier) -> i32 {
         for l in final_ctx.trace.iter().rev().take(12).collect::<Vec<_>>().into_iter().rev() {
             println!("  | {l}");
         }
-        println!("VIOLATION property={prop} replay={}", path.display());
-        exit = 1;
+        if v.clause.starts_with("harness/") {
+            // the simulator could not finish the run (budget, internal inconsistency): not a verdict about the property
+            println!("HARNESS-ERROR: property={prop} clause={} replay={}", v.clause, path.display());
+            exit = 2;
+        } else {
+            println!("VIOLATION property={prop} replay={}", path.display());
+            exit = 1;
+        }
     }
     write_evidence(engine, prop, tier, seed, &agg, wall, capped, n_viol, &known_lines, cfg.threads);
     println!(
